@@ -189,3 +189,21 @@ package dotgit
 //gvc:  modifies d.objectMap, d.objectList
 //gvc:  ensures dropped: d.objectMap == nil && len(d.objectList) == 0
 //gvc:end
+
+// Property C24 at the storage level: a pack handle is closed only when no
+// reader holds a cursor on it (or by Close of the storage). cleanPackList
+// drops every cached handle after a change of the pack set; its comment
+// promises that readers finish normally.
+// spec_handle_pinned(h): some cursor obtained from handle h has not been
+// closed yet (opaque: the readers are other goroutines).
+// Known finding F30: cleanPackList calls PackHandle.Close, which closes the
+// descriptors at once even under pinned readers.
+//gvc:func (*DotGit).cleanPackList
+//gvc:  props C24
+//gvc:  theory int
+//gvc:  opt coarse
+//gvc:  opt frame args
+//gvc:  loop 1 invariant pos: it1 >= 0
+//gvc:  sink Close requires idle: !spec_handle_pinned(recv)
+//gvc:  kf F30 idle: spec_handle_pinned(recv)
+//gvc:end
